@@ -134,6 +134,7 @@ type Plan struct {
 	Note    string    `json:"note,omitempty"`
 	Cands   []CandSpec `json:"cands,omitempty"` // ribsim: candidate paths (C02, C04)
 	Noise   []CandSpec `json:"noise,omitempty"` // ribsim: paths added and removed again (C02)
+	BMPPeers []BMPPeer `json:"bmp_peers,omitempty"` // bmpsim: monitored sessions of the scripted router
 }
 
 func (p *Plan) JSON() []byte {
